@@ -200,3 +200,15 @@ func VerifReadDict(c *Conn) []byte {
 	}
 	return append([]byte(nil), c.msgReader.dict.buf...)
 }
+
+// VerifMu drives a channel mutex of the kind that guards the connection's read, frame, message and
+// writer sections (type mu), bound to connection c like those.
+type VerifMu struct{ m *mu }
+
+// VerifNewMu returns a fresh, free mutex bound to c.
+func VerifNewMu(c *Conn) VerifMu { return VerifMu{newMu(c)} }
+
+func (v VerifMu) Lock(ctx context.Context) error { return v.m.lock(ctx) }
+func (v VerifMu) TryLock() bool                  { return v.m.tryLock() }
+func (v VerifMu) ForceLock()                     { v.m.forceLock() }
+func (v VerifMu) Unlock()                        { v.m.unlock() }
